@@ -66,6 +66,12 @@ class Library:
         if isinstance(blocks, Block):
             blocks = [blocks]
 
+        # Make sure that all blocks can be removed, before removing any of them
+        #   (i.e., the library remains unchanged if a ValueError is raised)
+        remaining_blocks = list(self._blocks)
+        for block in blocks:
+            remaining_blocks.remove(block)
+
         for block in blocks:
             self._blocks.remove(block)
             if isinstance(block, Entry):
